@@ -211,7 +211,7 @@ PROPS["C17"] = {
 }
 _EXTRAS = {"pkg/ringbuffer": "extra/ringbuffer", "internal/asyncprocessor": "extra/asyncprocessor"}
 PROPS["C18"] = {
-    "level_text": 'Start-up validation for ALL 64-bit values of WriteQueueSize and MaxPacketSize (client and server); every RTP write entry point (client, server session, server stream with fan-out) with MaxPacketSize and packet sizes symbolic (CSRC list, payload, padding through either pion field) and RTCP (client, server session, server stream media and the multicast writer - plain, SRTP, SRTP with MKI; receiver reports with 0..n reception reports and 0/4/8 bytes of profile extensions): refused => error and nothing queued, accepted => exactly one buffer <= MaxPacketSize whose length is the real marshalled size, exact boundary both ways; SRTP/SRTCP sizes with and without MKI through the real size arithmetic and a length model of pion/srtp.',
+    "level_text": 'Start-up validation for ALL 64-bit values of WriteQueueSize and MaxPacketSize (client and server); every RTP write entry point (client, server session, server stream with fan-out) with MaxPacketSize and packet sizes symbolic (CSRC list, payload, padding through either pion field) and RTCP (client, server session, server stream media and the multicast writer - plain, SRTP, SRTP with MKI; receiver reports with 0..n reception reports and 0/4/8 bytes of profile extensions): refused => error and nothing queued, accepted => exactly one buffer <= MaxPacketSize whose length is the real marshalled size, exact boundary both ways; SRTP/SRTCP sizes with and without MKI (client, server session, server stream, multicast writer) through the real size arithmetic and a length model of pion/srtp.',
     "level_note": 'Trusted: pion/srtp output length = input + 10 (+4 SRTCP index) + len(MKI), contents unconstrained; goroutines/timers not executed (GOSTUB). Outside: interleaved frame buffer sizing (tcpBuffer), what the kernel does.',
     "runs": [
         R("start-validation", ".", "root", ["ZzC18ServerStart", "ZzC18ClientStart"], params={"GOSTUB": 1}, extras=_EXTRAS),
@@ -219,6 +219,8 @@ PROPS["C18"] = {
           quick_params={"P": 12, "MAXPS": 36}, thorough_params={"P": 40, "MAXPS": 80, "NREP": 8}),
         R("srtp-sizes", ".", "root", ["ZzC18ClientSRTPSizes"], params={"GOSTUB": 1, "MKI": 0}, extras=_EXTRAS),
         R("srtp-sizes-mki", ".", "root", ["ZzC18ClientSRTPSizes"], params={"GOSTUB": 1, "MKI": 1}, extras=_EXTRAS),
+        R("srtp-sizes-server", ".", "root", ["ZzC18ServerSRTPSizes"], params={"GOSTUB": 1, "MKI": 0}, extras=_EXTRAS),
+        R("srtp-sizes-server-mki", ".", "root", ["ZzC18ServerSRTPSizes"], params={"GOSTUB": 1, "MKI": 1}, extras=_EXTRAS),
     ] + [
         R("multicast-write-srtp%d" % m, ".", "root", ["ZzC18MulticastWrite"], params={"GOSTUB": 1, "SRTP": m}, extras=_EXTRAS)
         for m in (0, 1, 2)
